@@ -533,6 +533,13 @@ fn context_programs(v: &mut Vec<Prog>) {
                 ("ctx3 [{a}{b}]-> pair at 0", vec![Subtable::Context3 { covs: vec![vec![A], vec![B]], records: vec![(0, 3)] }]),
                 ("ctx3 [{a,b}{m1,m2}]-> markbase at 1", vec![Subtable::Context3 { covs: vec![vec![A, B], vec![M1, M2]], records: vec![(1, 4)] }]),
                 ("ctx3 [{a}{b}]-> nested context at 0", vec![Subtable::Context3 { covs: vec![vec![A], vec![B]], records: vec![(0, 5)] }]),
+                // nested pair / cursive lookups whose flags differ from the context lookup's: the second glyph of the pair
+                // is found with the NESTED lookup's flags
+                ("ctx3 [{a}{b}]-> pair(IgnoreMarks) at 0", vec![Subtable::Context3 { covs: vec![vec![A], vec![B]], records: vec![(0, 6)] }]),
+                ("ctx3 [{a}{b}]-> pair(flag 0) at 0", vec![Subtable::Context3 { covs: vec![vec![A], vec![B]], records: vec![(0, 7)] }]),
+                ("ctx3 [{a}]-> pair(IgnoreMarks) at 0", vec![Subtable::Context3 { covs: vec![vec![A]], records: vec![(0, 6)] }]),
+                ("ctx3 [{a}]-> pair(flag 0) at 0", vec![Subtable::Context3 { covs: vec![vec![A]], records: vec![(0, 7)] }]),
+                ("ctx3 [{a}]-> pair(mark set 1) at 0", vec![Subtable::Context3 { covs: vec![vec![A]], records: vec![(0, 8)] }]),
                 (
                     "2 subtables ctx1 [a b]->0 | ctx3 [{a}]->0",
                     vec![
@@ -549,6 +556,9 @@ fn context_programs(v: &mut Vec<Prog>) {
                     lk(f, vec![Subtable::Pair1 { cov: vec![A], fmt1: 0x4, fmt2: 0x1, sets: vec![vec![(B, val(32), val(33))]] }]),
                     lk((0, 0), vec![markbase(vec![M1, M2], CLASS_CFG[1], 0, 0)]),
                     lk(f, vec![Subtable::Context3 { covs: vec![vec![A]], records: vec![(0, 1)] }]),
+                    lk((IGNORE_MARKS, 0), vec![Subtable::Pair1 { cov: vec![A], fmt1: 0x4, fmt2: 0x1, sets: vec![vec![(B, val(34), val(35)), (M1, val(36), val(37))]] }]),
+                    lk((0, 0), vec![Subtable::Pair1 { cov: vec![A], fmt1: 0x4, fmt2: 0x1, sets: vec![vec![(B, val(38), val(39)), (M1, val(40), val(41)), (M2, val(42), val(43))]] }]),
+                    lk((MFS0, 1), vec![Subtable::Pair1 { cov: vec![A], fmt1: 0x4, fmt2: 0x1, sets: vec![vec![(B, val(44), val(45)), (M1, val(46), val(47)), (M2, val(48), val(49))]] }]),
                 ];
                 let mut p = prog(format!("context {} nested-single={} {}", name, ns, flag_name(f)), Kind::Context, T_DIST, lookups);
                 p.gpos.features = vec![(T_DIST, vec![0])];
